@@ -57,6 +57,36 @@ func buildHoldRules(rs *ruleset) {
 	rs.do2("set_twice", "ctx.SetReport(ctx.Var(`x`).Text())\nctx.SetSuggest(ctx.Var(`x`).Text())\nctx.SetReport(ctx.Var(`y`).Text())",
 		func(o *oenv, s *site) string { return s.Text2 }, func(o *oenv, s *site) string { return s.Text })
 
+	// a Do function that reports on some matches only: what a match shows is what THIS run of the function set
+	// (nothing: the engine's placeholder; only a suggestion: the suggestion as the message), never what an earlier
+	// match left behind
+	rs.do("cond_report", "if types.AsPointer(ctx.Var(`x`).Type()) != nil {\n\tctx.SetReport(`pointer ` + ctx.Var(`x`).Text())\n}",
+		func(o *oenv, s *site) string {
+			if oPtr(s.T) != nil {
+				return "pointer " + s.Text
+			}
+			return "<empty message>"
+		})
+	rs.do("cond_suggest", "t := ctx.Var(`x`).Type()\nif types.AsSlice(t) != nil {\n\tctx.SetSuggest(t.String())\n}\nif types.AsArray(t) != nil {\n\tctx.SetReport(`array`)\n}",
+		func(o *oenv, s *site) string {
+			if oSlice(s.T) != nil {
+				return "suggestion: " + s.T.String()
+			}
+			if oArray(s.T) != nil {
+				return "array"
+			}
+			return "<empty message>"
+		})
+	rs.groups[len(rs.groups)-1].osugg = nil
+	condSugg := rs.groups[len(rs.groups)-1]
+	condSugg.osuggOpt = func(o *oenv, s *site) (string, bool) {
+		if oSlice(s.T) != nil {
+			return s.T.String(), true
+		}
+		return "", false
+	}
+	rs.do("report_empty_string", "ctx.SetReport(ctx.Var(`x`).Text())\nctx.SetReport(``)", func(o *oenv, s *site) string { return "<empty message>" })
+
 	// one-variable sites: the same handle asked for several times, objects built from its type held together
 	rs.do("hold_ctor", "x := ctx.Var(`x`)\nt := x.Type()\np := types.NewPointer(t)\nq := types.NewSlice(t)\na := types.NewArray(t, 2)\nb := types.NewArray(t, 3)\npp := types.NewPointer(p)\n"+
 		"ctx.SetReport(p.String() + `|` + q.String() + `|` + a.String() + `|` + b.String() + `|` + pp.String() + `|` + pp.Elem().String() + `|` + x.Text())",
